@@ -136,6 +136,7 @@ def build(ctx):
     import harness.util as _U
     _U.PRELUDE = 3      # every third object (by crc32 of its sequence) answers after a query history (util.prelude)
     _U.DECORATE = 4     # every fourth sequence is handed to the constructor in another accepted spelling (util.decorate)
+    _U.DERIVED = 5      # every fifth object is the all-positions-frozen shuffle of the constructed one (same sequence, sampler's code path)
     rng = ctx.rng
     seqs = gen_seq.random_classes(rng, ctx.pick(150, 800), 1, 60) + list(AAS)
     seqs += ['R' * n for n in (1, 5, 30)] + ['K' * 9, 'D' * 7, 'E', 'RRRRG', 'GGSSAA', 'H', 'YC', 'KRHKRH', 'DEDEYC']
